@@ -48,6 +48,7 @@ type Program struct {
 	ModelPath string
 	runtimeErrorString types.Type
 	Sizes     types.Sizes
+	BlankImports map[*ssa.Package][]*ssa.Package
 }
 
 type deferred struct {
@@ -100,6 +101,7 @@ type Interp struct {
 	trace bool
 	cfg   *Config
 	typeCache map[string]types.Type
+	persistSide map[interface{}]interface{}
 }
 
 func (i *Interp) abort(st status, why string) {
@@ -178,12 +180,37 @@ func (i *Interp) constValue(c *ssa.Const) value {
 
 // ---- package initialisation (lazy) ----
 
+func (i *Interp) inModule(pkg *ssa.Package) bool {
+	return strings.HasPrefix(pkg.Pkg.Path(), i.P.ModPath)
+}
+
 func (i *Interp) ensureInit(pkg *ssa.Package) {
 	if i.inited[pkg] != 0 {
 		return
 	}
 	i.inited[pkg] = 1
 	pkg.Build()
+	// packages imported only for their side effects are initialised first
+	for _, b := range i.P.BlankImports[pkg] {
+		i.ensureInit(b)
+	}
+	if !i.inModule(pkg) {
+		// remember model state (sync.Once etc.) created while a persistent package initialises
+		before := make(map[interface{}]bool, len(i.side))
+		for k := range i.side {
+			before[k] = true
+		}
+		defer func() {
+			if i.persistSide == nil {
+				i.persistSide = map[interface{}]interface{}{}
+			}
+			for k, v := range i.side {
+				if !before[k] {
+					i.persistSide[k] = v
+				}
+			}
+		}()
+	}
 	init := pkg.Func("init")
 	if init == nil || init.Blocks == nil {
 		i.inited[pkg] = 2
@@ -453,7 +480,14 @@ func (fr *frame) visitInstr(instr ssa.Instruction) continuation {
 				i.targetPanicStr("runtime error: invalid memory address or nil pointer dereference")
 			}
 			a := (*x).(array)
-			k := i.index(fr.get(instr.Index), len(a), isSigned(instr.Index.Type()))
+			iv := fr.get(instr.Index)
+			if t, ok := iv.(*smt.Term); ok && !t.IsConst() && onlyLoaded(instr) {
+				// read of a table at a symbolic index: an ite-chain instead of a fork per entry
+				var cell value = i.indexArrayValue(a, iv, isSigned(instr.Index.Type()))
+				fr.env[instr] = &cell
+				break
+			}
+			k := i.index(iv, len(a), isSigned(instr.Index.Type()))
 			fr.env[instr] = &a[k]
 		case poison:
 			i.abort(stInconclusive, "index of unsupported value: "+x.why)
@@ -595,9 +629,7 @@ func (i *Interp) index(idx value, n int, signed bool) int {
 		}
 		return int(k)
 	}
-	c := i.ctx
-	inRange := c.ULT(t, c.Const(t.Sort, uint64(n)))
-	if !i.decide(inRange, "index-in-range") {
+	if !i.decide(i.ultConst(t, uint64(n)), "index-in-range") {
 		i.targetPanicStr(fmt.Sprintf("runtime error: index out of range [sym] with length %d", n))
 	}
 	ct := i.concretize(t, "index")
@@ -619,18 +651,54 @@ func (i *Interp) indexArrayValue(x array, idx value, signed bool) value {
 		}
 		if allConst {
 			c := i.ctx
-			inRange := c.ULT(t, c.Const(t.Sort, uint64(len(x))))
-			if !i.decide(inRange, "index-in-range") {
+			if !i.decide(i.ultConst(t, uint64(len(x))), "index-in-range") {
 				i.targetPanicStr(fmt.Sprintf("runtime error: index out of range [sym] with length %d", len(x)))
 			}
-			r := x[len(x)-1].(*smt.Term)
-			for k := len(x) - 2; k >= 0; k-- {
-				r = c.Ite(c.Eq(t, c.Const(t.Sort, uint64(k))), x[k].(*smt.Term), r)
+			// run-length compressed: one comparison per run of equal entries
+			type run struct {
+				hi int // last index of the run
+				v  *smt.Term
+			}
+			var runs []run
+			for k := 0; k < len(x); k++ {
+				v := x[k].(*smt.Term)
+				if n := len(runs); n > 0 && runs[n-1].v == v {
+					runs[n-1].hi = k
+				} else {
+					runs = append(runs, run{k, v})
+				}
+			}
+			r := runs[len(runs)-1].v
+			for k := len(runs) - 2; k >= 0; k-- {
+				r = c.Ite(i.ultConst(t, uint64(runs[k].hi)+1), runs[k].v, r)
 			}
 			return r
 		}
 	}
 	return x[i.index(idx, len(x), signed)]
+}
+
+// onlyLoaded reports whether the address computed by instr is only ever dereferenced for reading.
+func onlyLoaded(instr *ssa.IndexAddr) bool {
+	refs := instr.Referrers()
+	if refs == nil || len(*refs) == 0 {
+		return false
+	}
+	for _, r := range *refs {
+		u, ok := r.(*ssa.UnOp)
+		if !ok || u.Op != token.MUL {
+			return false
+		}
+	}
+	return true
+}
+
+// ultConst is the term t < n (unsigned) where n may not fit t's width.
+func (i *Interp) ultConst(t *smt.Term, n uint64) *smt.Term {
+	if t.Sort.W < 64 && n > (uint64(1)<<uint(t.Sort.W))-1 {
+		return i.ctx.True
+	}
+	return i.ctx.ULT(t, i.ctx.Const(t.Sort, n))
 }
 
 func (i *Interp) sliceToArrayPointer(t types.Type, x value) value {
@@ -679,8 +747,7 @@ func (i *Interp) slice(instr *ssa.Slice, x, lo, hi, max value) value {
 			return int(int64(t.C<<sh) >> sh)
 		}
 		// symbolic bound: in range [0,Cap] or panic
-		c := i.ctx
-		ok := c.ULE(t, c.Const(t.Sort, uint64(Cap)))
+		ok := i.ultConst(t, uint64(Cap)+1)
 		if !i.decide(ok, "slice-bound-in-range") {
 			i.targetPanicStr("runtime error: slice bounds out of range [sym]")
 		}
@@ -1261,10 +1328,28 @@ func (i *Interp) callBuiltin(caller *frame, fn *ssa.Builtin, args []value) value
 
 // reset prepares for a new path.
 func (i *Interp) reset() {
-	i.globals = map[*ssa.Global]*value{}
-	i.inited = map[*ssa.Package]int{}
+	// packages outside the module under test (std, third party) are initialised
+	// once per worker and their state is kept across paths; the module's own
+	// packages are re-initialised for every path
+	ng := map[*ssa.Global]*value{}
+	ni := map[*ssa.Package]int{}
+	for g, c := range i.globals {
+		if g.Pkg != nil && !i.inModule(g.Pkg) && i.inited[g.Pkg] == 2 {
+			ng[g] = c
+		}
+	}
+	for p, st := range i.inited {
+		if st == 2 && !i.inModule(p) {
+			ni[p] = 2
+		}
+	}
+	i.globals = ng
+	i.inited = ni
 	i.redirects = map[*ssa.Function]value{}
 	i.side = map[interface{}]interface{}{}
+	for k, v := range i.persistSide {
+		i.side[k] = v
+	}
 	i.steps = 0
 	i.depth = 0
 	i.initDepth = 0
